@@ -25,7 +25,7 @@ def solve_cases(draw):
                                                    "Iteration limit reached", "Inequality constraints incompatible"])),
                   "point": [draw(st.sampled_from([-7.0, -2.5, -1.0, 0.0, 0.5, 1.0, 3.0, 8.0])) for _ in range(4)]}
     return {"model": model, "method": method, "inject": inject, "deep_algorithms": draw(st.integers(0, 4)) == 0,
-            "edit": draw(st.sampled_from([None, None, "tighten-ub", "tighten-lb"])),
+            "edit": draw(st.sampled_from([None, None, "tighten-ub", "tighten-lb", "cut-list"])),
             "resolve": draw(st.integers(0, 2)) == 0,
             "param_con": draw(st.sampled_from([None, None, None, "true", "false"])) if fam == "cvx" else None}
 
